@@ -669,7 +669,7 @@ def main():
     for nprov in (1, 2, 3):
         for edges in all_shapes(nprov):
             sid += 1
-            nseeds = (6 if thorough else 2) if nprov == 3 else (12 if thorough else 4)
+            nseeds = (8 if thorough else 4) if nprov == 3 else (12 if thorough else 6)
             for k in range(nseeds):
                 seed = run.seed * 1000003 + sid * 31 + k
                 perms = list(itertools.permutations(range(nprov + 1)))
